@@ -29,4 +29,8 @@ def auto_models(j, skip=()):
                 body = 'return (unsigned long)%s < (unsigned long)%s;' % (a, b)
             text += '/* assumed: std::less<> orders scalars by value and pointers by address (as libstdc++ does) */\n%s %s(%s) { %s }\n' % (s['ret'], n, s['params'], body)
             used.append('std::less<> = value / address order')
+        if q == 'std::char_traits<char8_t>::length' and len(ps) == 1:
+            text += '/* assumed: char_traits::length = number of characters before the terminating NUL (strings of the library are short literals) */\n'
+            text += '%s %s(%s) { unsigned long n = 0; while (n < 64 && %s[n] != 0) n++; __CPROVER_assert(n < 64, "char_traits::length model bound"); return n; }\n' % (s['ret'], n, s['params'], ps[0][1])
+            used.append('char_traits<char8_t>::length = strlen (<= 64)')
     return text, sorted(set(used))
